@@ -818,7 +818,7 @@ def tree_sig(tree):
 # ---------------------------------------------------------------------------
 HDR3 = ("From DD Require Import Base.PyStr Base.Value Path.PathModel Diff.Tree Diff.DiffModel Diff.TextView Diff.DiffShow "
         "Hash.HashModel DiffIO.DiffIOModel DiffIO.DiffIOShow Delta.DeltaModel Delta.DeltaShow Delta.DeltaIO Delta.DeltaIOShow "
-        "Views.ViewsModel Views.ViewsShow Views.ViewsRep Views.ViewsDelta Views.ViewsJsonMap Views.ViewsLevel Views.ViewsShow3.")
+        "Views.ViewsModel Views.ViewsShow Views.ViewsRep Views.ViewsRepInput Views.ViewsDelta Views.ViewsJsonMap Views.ViewsLevel Views.ViewsShow3.")
 IO_HDR = HDR3
 IO_CFG = "(mkCfg false 33 100 true)"
 
@@ -1124,8 +1124,13 @@ def rep_case(rng, a, b, verbose, dt, dr):
             dv = delta_view_of(a, b, {"ignore_order": True, "report_repetition": True})
             parts.append(("sx_c10_delta_io %s true %s %s r" % (cv, V.to_coq(a), V.to_coq(b)), ["delta_io", DC.delta_io_obs(dv)]))
         h = item_hasher(a, b)
+        sj = bool(sibinj_py(a, h))
         parts.append(("SL [sx_bool (aligned hexhash %s %s %s); sx_bool (sibinj hexhash %s %s)]" % (IO_CFG, V.to_coq(a), V.to_coq(b), IO_CFG, V.to_coq(a)),
-                      [bool(aligned_py(a, b, h)), bool(sibinj_py(a, h))]))
+                      [bool(aligned_py(a, b, h)), sj]))
+        if not D.tag_unsafe(a):
+            # C10_sibinj_is_input_condition: the hasher-free input-level guard has the same value
+            parts.append(("sx_bool (sibinj_in (io_opts %s true) %s)" % (IO_CFG, V.to_coq(a)), sj))
+        rep_case.last = (tbl, h)
         for lv in pick_levels(rng, dr, 1):
             try:
                 parts.append(level_component(lv))
@@ -1136,6 +1141,57 @@ def rep_case(rng, a, b, verbose, dt, dr):
         if c:
             parts.append(c)
     return assemble(run, parts, {"t1": repr(a), "t2": repr(b), "mode": "ignore_order+repetition", "verbose": verbose})
+
+
+def flat_exact_check(ctx, a, b, dr, tbl, h):
+    """C10_io_repetition_flat_t2_exact observed: for a list of scalars against a list of scalars under report_repetition,
+    every level is right on the t2 side (t2's item at the index of the t2-side relationship carries the hash of the
+    level's t2 object) IF AND ONLY IF the guard holds for the pairs the run used and the common hashes"""
+    scal = lambda v: isinstance(v, list) and all(not isinstance(x, (list, tuple, dict, set, frozenset)) for x in v)
+    if not (scal(a) and scal(b)):
+        return
+    hx, hy = [h(x) for x in a], [h(y) for y in b]
+    ji = [q for p, q, _x, _y in tbl if p == []]
+    ji = ji[0] if ji else []
+    guard = True
+    for j, i in ji:
+        av, rv = hy[j], hx[i]
+        js = [k for k, q in enumerate(hy) if q == av]
+        if len(js) != 1 and not all(k < len(hy) and hy[k] == av for k, q in enumerate(hx) if q == rv):
+            guard = False
+    for q in set(hx) & set(hy):
+        if hx.count(q) != hy.count(q):
+            i0 = hx.index(q)
+            if not (i0 < len(hy) and hy[i0] == q):
+                guard = False
+    right = True
+    for _kind, lv in tree_levels(dr):
+        if is_np(lv.t2) or lv.up is None:
+            continue
+        rel = lv.up.t2_child_rel or lv.up.t1_child_rel
+        if rel is None or not isinstance(rel.param, int) or not (0 <= rel.param < len(b)) or h(b[rel.param]) != h(lv.t2):
+            right = False
+    ctx.count("flat_t2_exact:guard=%s" % guard)
+    if guard != right:
+        ctx.fail(dict(t1=repr(a), t2=repr(b), mode="ignore_order+repetition", clause="flat t2-side condition is not exact",
+                      guard=guard, all_levels_right=right, pairs=[list(q) for q in ji]),
+                 "report_repetition, lists of scalars: guard of C10_io_repetition_flat_t2_exact is %r but 'every level right on the t2 side' is %r" % (guard, right))
+
+
+def flat_probe(ctx, a, b):
+    """one report_repetition run on lists of scalars with the pairings recorded, handed to flat_exact_check"""
+    from deepdiff import DeepDiff
+    from harness.props import c05
+    a, b = copy.deepcopy(a), copy.deepcopy(b)
+    try:
+        with c05.Recording() as rec:
+            dr = DeepDiff(a, b, ignore_order=True, report_repetition=True, view="tree")
+            tbl = c05.pairs_table(rec)
+            if not all(c05.pairs_valid(x) for x in rec):
+                return
+    except Exception:
+        return
+    flat_exact_check(ctx, a, b, dr, tbl, item_hasher(a, b))
 
 
 def value_case(v):
@@ -1431,6 +1487,9 @@ def one_pair(ctx, t1, t2, cases, corr=True, iocases=None, repcases=None):
                     ctx.count("rep_case_skipped")
                 else:
                     repcases.append(c)
+                    if verbose == 1 and getattr(rep_case, "last", None):
+                        flat_exact_check(ctx, a, b, dr, *rep_case.last)
+                        rep_case.last = None
                     if "repetition_change" in dr:
                         ctx.count("rep_cases_with_repetition_change")
     if D.snapshot(a) != sa or D.snapshot(b) != sb:
@@ -1445,6 +1504,13 @@ def replay_witnesses(ctx):
     s = DeepDiff({"a": {1, 2}}, {"a": {1, 3}}).pretty()
     if "Item root['a'][3] added to set." not in s.split("\n"):
         ctx.break_("correspondence", {"name": "C10_pretty_set_item_example", "detail": "the implementation no longer prints the statement of the Coq example", "impl": s})
+    # C10_pretty_none_and_repetition_examples: the statements of the Coq examples are what the implementation prints
+    for t1, t2, kw, want in (({"a": None}, {"a": 1}, {}, "Type of root['a'] changed from NoneType to int and value changed from None to 1."),
+                             ([1], [None], {}, "Type of root[0] changed from int to NoneType and value changed from 1 to None."),
+                             ([4, 4, 1], [1, 4, 2], {"ignore_order": True, "report_repetition": True}, "Repetition change for item root[0].")):
+        s = DeepDiff(t1, t2, **kw).pretty()
+        if want not in s.split("\n"):
+            ctx.break_("correspondence", {"name": "C10_pretty_none_and_repetition_examples", "detail": "the implementation no longer prints the statement of the Coq example", "want": want, "impl": s})
     if "C10-to_json-non-utf8-bytes" in open_keys:
         try:
             s = DeepDiff([b"\xff"], [b"a"]).to_json()
@@ -1460,6 +1526,14 @@ def replay_witnesses(ctx):
                 ctx.break_("correspondence", {"name": "C10-repetition-t2-index witness", "detail": "C10_io_repetition_leaf_refuted's witness no longer fails on the implementation; model out of date", "impl": repr(d)})
     for t1, t2 in (({"a": {1, 2}}, {"a": {1, 3}}), ([b"\xff"], [b"a"]), ([3, 1, 2], [4, 4, 3]), ([4, 4, 1], [1, 4, 2])):
         one_pair(ctx, t1, t2, [], corr=False)
+    # C10_io_repetition_flat_t2_refuted: the witnesses and the satisfying example, observed
+    for t1, t2 in (([3, 1, 2], [4, 4, 3]), ([4, 4, 1], [1, 4, 2]), ([1, 5], [7, 7, 5])):
+        flat_probe(ctx, t1, t2)
+    for _ in range(1500 if ctx.thorough else 200):
+        x, y, _k = V.gen_atom_list_pair(ctx.rng, maxlen=6, alphabet=ctx.rng.choice([[1, 2, 3, 4, 5, 6, 7], ["a", "b", 1, 2, None, 2.5, True]]))
+        if ctx.rng.random() < 0.5:
+            y = y + [ctx.rng.choice([8, 9, "z"]) for _i in range(ctx.rng.randint(1, 3))]
+        flat_probe(ctx, x, y)
 
 
 def run(ctx):
@@ -1496,6 +1570,11 @@ def run(ctx):
     if os.environ.get("C10_DEV_TIMES"):
         print("C10 all: %.1fs" % (time.time() - t0), file=sys.stderr)
     replay_witnesses(ctx)
+    # extension: class instances (attribute_added / attribute_removed in the text view, to_dict, pretty()) - beyond the
+    # property's stated domain, recorded in the evidence file, never a violation (core.Ctx.extension; coq/theories/Obj)
+    with ctx.extension("Obj"):
+        from harness import objcommon as O
+        O.stream_c10(ctx)
 
 
 def replay(ctx, data):
